@@ -1151,7 +1151,8 @@ class BitString(Type):
         return clean_value == clean_default
 
     def rstrip_zeros(self, data, number_of_bits):
-        data, number_of_bits = rstrip_bit_string_zeros(bytearray(data))
+        data, number_of_bits = clean_bit_string_value((data, number_of_bits),
+                                                      True)
 
         if self.minimum is not None:
             if number_of_bits < self.minimum:
